@@ -217,7 +217,7 @@ class Checker:
                 self.seen.add(n)
             lan = self.lanes_avx2
             b32 = True
-            lim = (134124453, 67062226)
+            lim = (134124728, 67062364)
         else:
             lan = self.lanes_ifma
             b32 = False
